@@ -127,6 +127,7 @@ impl Block for SymbolSync {
         let mut opos = 0; // Current output position.
         let olen = o.len();
         let oslice = o.slice();
+        let mut full = false;
         for sample in input.iter() {
             n += 1;
             if self.stream_pos >= self.next_sym_middle {
@@ -138,7 +139,8 @@ impl Block for SymbolSync {
                 opos += 1;
                 self.next_sym_middle += self.clock;
                 if opos == olen {
-                    break;
+                    // Finish the bookkeeping for this sample before stopping.
+                    full = true;
                 }
             }
             let sign = *sample > 0.0;
@@ -196,6 +198,9 @@ impl Block for SymbolSync {
                 self.stream_pos -= step_back;
                 self.last_sym_boundary_pos -= step_back;
                 self.next_sym_middle -= step_back;
+            }
+            if full {
+                break;
             }
         }
         input.consume(n);
